@@ -202,8 +202,54 @@ func (x *Exec) mapGetSpec(c *CEnv, mv, k Value) Value {
 	return x.mergeValues(x.mapHas(c.heap(), mi, mv.X, k), v, x.zeroValue(mi.vt))
 }
 
-func (x *Exec) rangeInit(fr *Frame, st *State, i *ssa.Range) { unsupported("range over map/string") }
-func (x *Exec) rangeNext(fr *Frame, st *State, i *ssa.Next)  { unsupported("range next") }
+// range over a map. Go leaves the order unspecified, yields each key present at that moment at most
+// once, and may or may not yield keys inserted during the iteration. The model is an
+// over-approximation of that: every Next either ends the iteration or yields SOME key that is in
+// the map at that moment, with its value (no order, no "at most once", no "all keys"). Everything
+// proved about the loop therefore holds for every real iteration order; "every entry was visited"
+// cannot be concluded from it.
+func (x *Exec) rangeInit(fr *Frame, st *State, i *ssa.Range) {
+	base := x.get(fr, st, i.X)
+	if base.K != KMap {
+		unsupported("range over string")
+	}
+	fr.env[i] = base
+}
+
+func (x *Exec) rangeNext(fr *Frame, st *State, i *ssa.Next) {
+	if i.IsString {
+		unsupported("range over string")
+	}
+	rng, ok := i.Iter.(*ssa.Range)
+	if !ok {
+		unsupported("range next on unknown iterator")
+	}
+	base := x.get(fr, st, i.Iter)
+	if base.K != KMap {
+		unsupported("range next on %v", base.K)
+	}
+	mi := x.mapInfoOf(rng.X.Type())
+	okT := x.vc.fresh(fmt.Sprintf("f%d.%s.more", fr.id, i.Name()), SBool)
+	key := x.havocValue(st, mi.kt, fmt.Sprintf("f%d.%s.key", fr.id, i.Name()))
+	x.vc.assume(Implies(And(st.Reach, okT), x.mapHas(st, mi, base.X, key)))
+	val := x.mapGet(st, mi, base.X, key)
+	x.assumeLoaded(st, val)
+	tt := i.Type().(*types.Tuple)
+	fields := []Value{{K: KScalar, T: types.Typ[types.Bool], X: okT}}
+	if b, isB := tt.At(1).Type().(*types.Basic); isB && b.Kind() == types.Invalid {
+		fields = append(fields, Value{K: KTuple})
+	} else {
+		key.T = mi.kt
+		fields = append(fields, key)
+	}
+	if b, isB := tt.At(2).Type().(*types.Basic); isB && b.Kind() == types.Invalid {
+		fields = append(fields, Value{K: KTuple})
+	} else {
+		val.T = mi.vt
+		fields = append(fields, val)
+	}
+	fr.env[i] = Value{T: i.Type(), K: KTuple, Fields: fields}
+}
 
 // exactKey ("exactkeys" clause): a map key formed directly by a narrowing integer conversion must equal the
 // value it was converted from; otherwise distinct values share a key and the map no longer represents them.
